@@ -894,6 +894,7 @@ class Runner:
     def __init__(self, chk, env):
         self.chk, self.env = chk, env
         self.lines, self.expect, self.owner = [], [], []
+        self.after_derive = []      # per line: a derived object exists, whose queries may memoise the parent's to_dense
         self.excluded = {}
 
     def aux_for(self, spec):
@@ -1130,7 +1131,8 @@ class Runner:
                     if transplant:
                         op.__dict__.pop("root_decomposition", None)
                         op.__dict__.pop("root_inv_decomposition", None)
-                sticky = set(fr["sticky"]) | set(logs)
+                fr["sticky"] |= set(logs)
+                sticky = fr["sticky"]      # one set per history: derived objects share sub-operators (and their Lanczos-made caches)
                 lineage = d[0]
                 if transplant and "R" in captured and "RI" in captured:
                     Lr = dense_of(captured["R"].root)
@@ -1187,6 +1189,11 @@ class Runner:
                               f"after the last step: the value cached under {ck} on a {owner} was modified in place by step "
                               f"{len(hist) - 1} ({hist[-1][1]}) (max change {err:.3e})"))
         if record:
+            seen_d = False
+            for ln in mlines:
+                self.after_derive.append(seen_d)
+                if ln.startswith("d "):
+                    seen_d = True
             self.lines += mlines
             self.expect += mexp
             self.owner += [hid] * len(mlines)
@@ -1288,6 +1295,10 @@ def run(chk):
         for j, (o, e) in enumerate(zip(outs, runner.expect)):
             if e is None:
                 continue
+            if runner.after_derive[j]:
+                # a wrapper derived from this object densifies it through the shared handle: `to_dense` of the parent may be
+                # memoised by the child's queries, which the single-object model does not follow
+                o, e = o.replace("fn:to_dense|| ", "").replace(" fn:to_dense||", ""), e.replace("fn:to_dense|| ", "").replace(" fn:to_dense||", "")
             if o != e:
                 hid = runner.owner[j]
                 spec, hist, _ = hists[hid]
